@@ -156,6 +156,9 @@ class ResourcePool:
                 container.suspend_container()
                 self.suspending_containers.append(container)
                 self.active_containers.remove(container)
+            # consumed_ram_gb counts active containers only; drop what the
+            # suspended ones were using
+            self._reconcile_consumed_ram()
         
         results = []
         if len(assignments) > 0:
